@@ -97,9 +97,8 @@ def fieldName (E : Env) (k : Nat) (j : Json) : String :=
     | some cd => if cd.fields.isEmpty then "zz" else (cd.fields[nat! j % cd.fields.length]?.map (·.1)).getD "zz"
     | none => "zz"
 
-def assignJ (o : Out Res × Nat) (f : String) : Json :=
+def assignJ (o : Out Res × Nat) (_f : String) : Json :=
   match o with
-  | (.ok (.data _ fs), c) => Json.mkObj [("ok", resJ ((fs.lookup f).getD .none)), ("cost", Json.num c)]
   | (.ok r, c) => Json.mkObj [("ok", resJ r), ("cost", Json.num c)]
   | (.err f', c) => Json.mkObj [("err", Json.str (if f'.fuel then "fuel" else if f'.depth then "depth" else "parse")),
                                ("cost", Json.num c)]
